@@ -121,6 +121,9 @@ func runC07(r *run) {
 		var l slog.Logger = slog.New(fmt.Sprintf("c07-%d", i))
 		var cur slog.Logger = l
 		keyPool := c07Keys[:3+g.intn(len(c07Keys)-3)]
+		emptyKey := i%6 == 5
+		// (the empty string is a key like any other when it comes in an Attr object - it sorts first -; unset slots after
+		// it do not stand in for it. As the first half of a pair it cannot be told from "no key yet": not used that way.)
 		// one prepared Attrs value handed to the first two loggers of the chain, each of which then
 		// gets another attribute of its own: the loggers' own attributes stay their own
 		sharedCase := depth >= 2 && g.chance(1, 4)
@@ -134,7 +137,14 @@ func runC07(r *run) {
 		}
 		for d := 0; d < depth; d++ {
 			if d > 0 {
-				cur = cur.New(fmt.Sprintf("child%d", d))
+				switch (i + d) % 5 {
+				case 1:
+					cur = cur.With() // a child made by the builder that binds attributes, given none: a logger of its own all the same
+				case 2:
+					cur = cur.WithAttrs()
+				default:
+					cur = cur.New(fmt.Sprintf("child%d", d))
+				}
 			}
 			chainLoggers = append(chainLoggers, cur)
 			if sharedCase && d < 2 {
@@ -148,10 +158,17 @@ func runC07(r *run) {
 			if !g.chance(1, 3) {
 				for j := g.intn(5); j > 0; j-- {
 					own = append(own, kvp{g.pick(keyPool), next()})
+					if emptyKey && g.chance(1, 3) {
+						own[len(own)-1].k = ""
+					}
 				}
 			}
 			if len(own) > 0 {
-				switch g.intn(3) {
+				form := g.intn(3)
+				if emptyKey {
+					form = 0
+				}
+				switch form {
 				case 0:
 					var as []slog.Attr
 					for _, a := range own {
@@ -299,8 +316,12 @@ func runC07(r *run) {
 		var callArgs []any
 		for j := 0; j < na; j++ {
 			a := kvp{g.pick(keyPool), next()}
+			form := g.intn(3)
+			if emptyKey && g.chance(1, 4) {
+				a.k, form = "", 1+g.intn(2)
+			}
 			args = append(args, a)
-			switch g.intn(3) {
+			switch form {
 			case 0:
 				callArgs = append(callArgs, a.k, a.v)
 			case 1:
@@ -311,6 +332,13 @@ func runC07(r *run) {
 		}
 		if len(callArgs) > 0 && g.chance(1, 6) {
 			callArgs = []any{slog.NewAttrs(callArgs...)} // the same arguments as one prepared list
+		}
+		if emptyKey {
+			// unset slots at the end of the argument list, and (half of the time) at the end of the logger's own list
+			callArgs = append(callArgs, []slog.Attr{nil}, slog.NewAttrs())
+			if i%12 == 5 {
+				cur.SetAttrs(nil)
+			}
 		}
 		if nilCtx {
 			fromCtx = nil
